@@ -23,7 +23,8 @@ EXPLANATION = (
     "and stepping). C08.c: the season reset rewrites the CO2 factor of the starting season's own (deep-copied) crop. "
     "C08.d: no in-place store below _perform_timestep targets the weather matrix or a numpy view of it (slices and "
     "boolean-mask selections are distinguished by the view/copy table), so every season reads the weather the single-season run reads. "
-    "NOT decided: bitwise equality of the two runs.")
+    "C08.e: the thermal-time calendar of a SwitchGDD crop must not be an aggregate over the seasons of the window (reported: prepare_gdd's "
+    "mean / median over all seasons - known finding F19, the documented behaviour of the conversion). NOT decided: bitwise equality of the two runs.")
 
 L = frozenset
 ST = ("state",)
@@ -342,6 +343,8 @@ def run(chk, prog, tier):
     rule_b(chk, prog)
     rule_c(chk, prog)
     rule_d(chk, prog)
+    from ._siblings import season_aggregate_calendar
+    season_aggregate_calendar(chk, prog, "C08.e")
     chk.exhaustive = True
 
 
